@@ -74,6 +74,10 @@ def cases(tier, seed):
         for p1 in range(-2, 3):
             out.append({"kind": "quatA", "p0": p0, "p1": p1, "seed": seed})
     out.append({"kind": "perm", "seed": seed})
+    # products of rotations that land within rounding distance of the identity / of a half turn (trace rounds above 3
+    # or below -1; seeded C02-f, C02-g): one case per direction
+    for di in range(len(D)):
+        out.append({"kind": "compose", "tier": tier, "dir": di, "seed": seed})
     return out
 
 
@@ -211,6 +215,36 @@ def check(case):
                 F.cmp("Exp_SE3 vs mpmath Exp_SE3", H, Hm, tolM * sc, dr, "ExpSE3_ref")
                 F.cmp("Log_SE3(Exp_SE3(h)) vs h", Log_SE3(H), h, TOL_RT * sc, dr, "LogExpSE3_" + tag)
         nontrivial = True
+    elif kind == "compose":
+        D = directions(seed, case.get("tier", "quick"))
+        d = D[case["dir"]]
+        d = d / np.sqrt(d @ d)
+        n = 0
+        over = under = 0
+        for a in (1e-3, 0.1, 0.3, 0.5, 1.0, 1.3, 2.0, 2.5, 3.0, PI - 1e-3):
+            A1 = Exp_SO3(a * d)
+            Ah = Exp_SO3(0.5 * a * d)
+            letters = [("R^T R", A1.T @ A1, PI), ("R R^T", A1 @ A1.T, PI), ("Exp(psi) Exp(-psi)", A1 @ Exp_SO3(-a * d), PI),
+                       ("Exp(psi/2)^2 Exp(psi)^T", Ah @ Ah @ A1.T, PI),
+                       ("Exp(a n) Exp((pi-a) n)", A1 @ Exp_SO3((PI - a) * d), 0.0), ("Exp((pi-a) n) Exp(a n)", Exp_SO3((PI - a) * d) @ A1, 0.0),
+                       ("2 n n^T - I", 2 * np.outer(d, d) - I3, 0.0)]
+            for nm, A, dist in letters:
+                tr = float(np.trace(A))
+                over += tr > 3.0
+                under += tr < -1.0
+                data = {"compose": nm, "a": a, "dir": d.tolist(), "dist_to_pi": dist, "psi_norm": PI - dist, "trace_minus_3": tr - 3.0, "trace_plus_1": tr + 1.0}
+                psi = Log_SO3(A)
+                F.cmp("Log_SO3 of a product of rotations is finite", np.isfinite(psi).all(), True, 0, data, "compose_finite")
+                if dist > 1:
+                    F.cmp("Log_SO3 of a product equal to the identity up to rounding vs 0", psi, np.zeros(3), 1e-12, data, "compose_id")
+                else:
+                    F.cmp("|Log_SO3| of a product equal to a half turn up to rounding vs pi", np.sqrt(psi @ psi), PI, TOL_RT, data, "compose_pi")
+                _matrix_checks(A, data, F, seed)
+                n += 1
+        F.stats["n_trace_above_3"] = over
+        F.stats["n_trace_below_minus_1"] = under
+        outcome = ["composed near identity / half turn" + ("; trace>3 seen" if over else "") + ("; trace<-1 seen" if under else "")]
+        nontrivial = n > 0
     elif kind in ("quatA", "perm"):
         n = 0
         if kind == "quatA":
